@@ -54,7 +54,17 @@ func (fx *FnCtx) exec(st *State, s ast.Stmt) []outcome {
 	if fx.fc != nil && len(fx.fc.StmtAsserts) > 0 {
 		if _, isBlock := s.(*ast.BlockStmt); !isBlock {
 			key := fx.stmtText(s)
-			for _, c := range fx.fc.StmtAsserts[key] {
+			cls := fx.fc.StmtAsserts[key]
+			if n := fx.stmtOrdinal(s, key); n > 0 {
+				cls = append(append([]*Clause{}, cls...), fx.fc.StmtAsserts[fmt.Sprintf("%s#%d", key, n)]...)
+			}
+			for _, c := range cls {
+				if c.Kind == "ghost" {
+					// ghost binding: a spec-only name holding the value of the expression at this point
+					st.named[c.Label] = fx.evalSpec(fx.envAt(st, s.Pos()), c.Expr)
+					fx.stmtAssertHit[c] = true
+					continue
+				}
 				goal := fx.specBool(fx.envAt(st, s.Pos()), c.Expr)
 				fx.emit(st, "at:assert["+c.Label+"]", "stmt-assert", c.Tags, goal, c.Src, fx.pos(s))
 				st.assume(goal)
@@ -564,6 +574,28 @@ func (fx *FnCtx) scanWrites(n ast.Node) *loopWrites {
 			}
 		case *ast.CallExpr:
 			w.calls = append(w.calls, x)
+			// a local bytes.Buffer passed by address (fmt.Fprintf(&buf, ...)) is written too
+			for _, a := range x.Args {
+				if _, isAddr := a.(*ast.UnaryExpr); isAddr {
+					if bv := fx.localBufferVar(a); bv != nil {
+						w.vars[bv] = true
+					}
+				}
+			}
+			// a method call on a local bytes.Buffer (modelled as a string accumulator) writes the variable
+			if sel, ok := x.Fun.(*ast.SelectorExpr); ok {
+				recv := sel.X
+				if u, ok := recv.(*ast.UnaryExpr); ok && u.Op == token.AND {
+					recv = u.X
+				}
+				if id, ok := recv.(*ast.Ident); ok {
+					if o, ok := fx.pkg.Info.Uses[id].(*types.Var); ok {
+						if n, ok := types.Unalias(o.Type()).(*types.Named); ok && n.Obj().Pkg() != nil && n.Obj().Pkg().Path() == "bytes" && n.Obj().Name() == "Buffer" {
+							w.vars[o] = true
+						}
+					}
+				}
+			}
 		case *ast.FuncLit:
 			return true
 		}
@@ -606,6 +638,14 @@ func (fx *FnCtx) havocForLoop(st *State, body ast.Node, extra []ast.Node, ord in
 	}
 	for _, c := range w.calls {
 		fx.havocCallFrame(st, c)
+	}
+	// ghost names bound inside the loop are havocked with it
+	for _, nd := range append([]ast.Node{body}, extra...) {
+		for _, g := range fx.ghostWrites(nd) {
+			if old, ok := st.named[g]; ok {
+				st.named[g] = Val{fx.sc.Fresh(g, old.S), old.S, old.Ty}
+			}
+		}
 	}
 	// alloc only grows
 	preA := fx.heapArr(st.heap, allocHeap, allocSort)
@@ -1004,4 +1044,66 @@ func (fx *FnCtx) stmtText(s ast.Stmt) string {
 		t = t[:i]
 	}
 	return strings.Join(strings.Fields(t), " ")
+}
+
+// ghostWrites: names of the ghost bindings (at "<stmt>" ghost n = e) attached to statements inside n.
+func (fx *FnCtx) ghostWrites(n ast.Node) []string {
+	if n == nil || fx.fc == nil || len(fx.fc.StmtAsserts) == 0 {
+		return nil
+	}
+	has := false
+	for _, cs := range fx.fc.StmtAsserts {
+		for _, c := range cs {
+			if c.Kind == "ghost" {
+				has = true
+			}
+		}
+	}
+	if !has {
+		return nil
+	}
+	var out []string
+	ast.Inspect(n, func(x ast.Node) bool {
+		s, ok := x.(ast.Stmt)
+		if !ok {
+			return true
+		}
+		if _, isBlock := s.(*ast.BlockStmt); isBlock {
+			return true
+		}
+		key := fx.stmtText(s)
+		cls := fx.fc.StmtAsserts[key]
+		if n := fx.stmtOrdinal(s, key); n > 0 {
+			cls = append(append([]*Clause{}, cls...), fx.fc.StmtAsserts[fmt.Sprintf("%s#%d", key, n)]...)
+		}
+		for _, c := range cls {
+			if c.Kind == "ghost" {
+				out = append(out, c.Label)
+			}
+		}
+		return true
+	})
+	return out
+}
+
+// stmtOrdinal: s is the N-th statement (source order, whole body) whose printed first line is key.
+func (fx *FnCtx) stmtOrdinal(s ast.Stmt, key string) int {
+	if fx.stmtOrd == nil {
+		fx.stmtOrd = map[ast.Stmt]int{}
+		cnt := map[string]int{}
+		ast.Inspect(fx.decl.Body, func(n ast.Node) bool {
+			st, ok := n.(ast.Stmt)
+			if !ok {
+				return true
+			}
+			if _, isBlock := st.(*ast.BlockStmt); isBlock {
+				return true
+			}
+			k := fx.stmtText(st)
+			cnt[k]++
+			fx.stmtOrd[st] = cnt[k]
+			return true
+		})
+	}
+	return fx.stmtOrd[s]
 }
